@@ -332,8 +332,6 @@ def _run_basis(case):
     _try(out, "cov_b_shape", lambda: list(bf.covariance().basis.values.shape))
     if not two:
         _try(out, "cov_g", lambda: _lst(g.covariance().values[0].reshape(-1)))
-    _try(out, "standardize_b", lambda: _lst(bf.standardize().to_grid().values.reshape(N, -1)))
-    _try(out, "standardize_g", lambda: _lst(g.standardize().values.reshape(N, -1)))
     # non-default options: the same option on both routes
     _try(out, "nsq_b_simpson", lambda: _lst(bf.norm(squared=True, method_integration="simpson")))
     _try(out, "nsq_g_simpson", lambda: _lst(g.norm(squared=True, method_integration="simpson")))
@@ -343,10 +341,7 @@ def _run_basis(case):
     _try(out, "nsq_b_again", lambda: _lst(bf.norm(squared=True)))
     _try(out, "ip_b_again", lambda: _lst(bf.inner_product()))
     _try(out, "mean_g_again", lambda: _lst(g.mean().values.reshape(1, -1)))
-    # the operations must not have changed the operand
     out["coef_after"] = bool(np.array_equal(bf.coefficients, C))
-    out["phi_after"] = bool(np.array_equal(basis.values.reshape(len(out["phi"]), -1),
-                                           np.array([[float(F(x)) for x in r] for r in out["phi"]])))
     C2 = C[::-1] * 2.0 + 1.0
     try:
         bf.coefficients = C2
@@ -360,6 +355,13 @@ def _run_basis(case):
         _try(out, "hist_nsq_g", lambda: _lst(bf.to_grid().norm(squared=True)))
     except Exception as e:
         out["hist_error"] = err_class(e)
+    # standardisation last (on the unrepaired tree it overwrites the shared basis: C16's defect)
+    bs = BasisFunctionalData(basis, C.copy())
+    _try(out, "standardize_b", lambda: _lst(bs.standardize().to_grid().values.reshape(N, -1)))
+    _try(out, "standardize_g", lambda: _lst(g.standardize().values.reshape(N, -1)))
+    # the operations must not have changed the operand
+    out["phi_after"] = bool(np.array_equal(basis.values.reshape(len(out["phi"]), -1),
+                                           np.array([[float(F(x)) for x in r] for r in out["phi"]])))
     return out
 
 
